@@ -867,6 +867,8 @@ def m_bool(I, a, k):
         return v
     if is_sym_int(v):
         return norm_bool(v != 0)
+    if isinstance(v, Opaque):
+        return Opaque("bool()")
     return I.truthy(v)
 
 
